@@ -8,7 +8,13 @@ from vlib import flatten_idx
 ID = "C06"
 THEOREMS = [("FlatModel.Props.C06Opt", t) for t in (
     "FC.C06.optimal", "FC.C06.optimal'", "FC.C06.optimal_nat", "FC.C06.lengths_kraft_eq_one", "FC.C06.lengths_pos",
-    "FC.C06.canonical_is_prefix_free", "FC.C06.code_lt", "FC.C06.single_symbol_one_bit", "FC.C06.lookup_some_iff")]
+    "FC.C06.canonical_is_prefix_free", "FC.C06.code_lt", "FC.C06.single_symbol_one_bit", "FC.C06.lookup_some_iff")] + [
+    ("FlatModel.Props.C06Bits", t) for t in (
+    "FC.C06.raw_mode", "FC.C06.raw_frame", "FC.C06.raw_mode_all", "FC.C06.clear_raw", "FC.C06.bits_eq_sum", "FC.C06.refuses_unknown",
+    "FC.C06.accepts_known", "FC.C06.index_of_denotes", "FC.C06.push_coded", "FC.C06.roundtrip_coded", "FC.C06.frame_coded",
+    "FC.C06.roundtrip_coded_all", "FC.C06.roundtrip_after_merge", "FC.C06.createFrom_ok", "FC.Huff.push_appends",
+    "FC.Huff.frame_bits", "FC.Huff.decode_spec", "FC.Huff.chunks_spec", "FC.Huff.createFrom_tableOK", "FC.Huff.walk_sound")] + [
+    ("FlatModel.Props.C06", t) for t in ("FC.C06.createFrom_good", "FC.C06.roundtrip_merged", "FC.Huff.canonBits_eq_bitsOfCode")]
 PROFILES = {"quick": ["checked", "wrapping"], "thorough": ["checked", "wrapping"], "search": ["checked", "wrapping"]}
 RULE = ("frequency profiles (1 symbol, equal counts, Fibonacci counts forcing 9..20-bit codes, near-uniform 2..17 symbols, "
         "257..600 equiprobable u16 symbols, all profiles over <=3 symbols with counts <=3) x item sequences covering every "
